@@ -544,7 +544,8 @@ VARIANTS = [
     Variant("length-filter-one-or-many-bounded", "FIRE", "core",
             "        if isinstance(n, OneOrMany):\n            max_nodes_length = float(\"inf\")\n\n    if not min_nodes_length",
             "        if isinstance(n, OneOrMany):\n            min_nodes_length -= 1\n            max_nodes_length = float(\"inf\")\n\n    if not min_nodes_length", "R12.1"),
-    Variant("with-bodies-not-searched", "FIRE", "constants", "    ast.For,\n    ast.With,\n    ast.FunctionDef,", "    ast.For,\n    ast.FunctionDef,", "R12.2"),
+    Variant("with-bodies-not-searched", "FIRE", "constants", "    ast.AsyncFor,\n    ast.With,\n    ast.AsyncWith,", "    ast.AsyncFor,\n    ast.AsyncWith,", "R12.2"),
+    Variant("async-blocks-not-searched", "FIRE", "constants", "    ast.AsyncFor,\n    ast.With,\n    ast.AsyncWith,", "    ast.With,", "R12.2"),
     Variant("ignore-identifiers", "FIRE", "core",
             "DEFAULT_IGNORE = frozenset((\"lineno\", \"end_lineno\", \"col_offset\", \"end_col_offset\", \"kind\"))",
             "DEFAULT_IGNORE = frozenset((\"lineno\", \"end_lineno\", \"col_offset\", \"end_col_offset\", \"kind\", \"id\"))", "R12.3"),
@@ -568,7 +569,7 @@ VARIANTS = [
     Variant("ignore-as-constant-reordered", "SILENT", "core",
             "DEFAULT_IGNORE = frozenset((\"lineno\", \"end_lineno\", \"col_offset\", \"end_col_offset\", \"kind\"))",
             "DEFAULT_IGNORE = frozenset({\"kind\", \"end_col_offset\", \"col_offset\", \"end_lineno\", \"lineno\"})"),
-    Variant("block-kinds-reordered", "SILENT", "constants", "    ast.For,\n    ast.With,\n    ast.FunctionDef,", "    ast.With,\n    ast.For,\n    ast.FunctionDef,"),
+    Variant("block-kinds-reordered", "SILENT", "constants", "    ast.AsyncFor,\n    ast.With,\n    ast.AsyncWith,", "    ast.AsyncWith,\n    ast.With,\n    ast.AsyncFor,"),
 ]
 
 META = {
